@@ -127,7 +127,7 @@ def _run_task(args):
             # once a task has used its solver budget (only happens when many obligations fail), the rest get short timeouts
             over = (time.time() - t_dis) > budget
             solve.discharge(ob, 1500 if over else opts.get("z3_timeout_ms", 10000), 3 if over else opts.get("cvc5_timeout_s", 15),
-                            opts.get("cross_check", False) and not over, expect_sat=task.contract.probe, quick_fail=over)
+                            opts.get("cross_check", False) and not over, expect_sat=task.contract.probe, quick_fail=over, cvc5_first=(task.contract.prefer == "cvc5"))
             rec = {"name": ob.name, "kind": ob.kind, "status": ob.status, "backend": ob.backend,
                    "time": round(ob.time, 4), "tags": tags_of(ob.name), "line": ob.line,
                    "trace": [list(x) for x in ob.trace], "nhyps": len(ob.hyps)}
